@@ -21,6 +21,10 @@ C04's business) and is an argument of the checks (whose verdicts are the paramet
 reverse-path `<>` is a sender like any other (`mailFromReceived`, not `mailFrom != ""`, tells
 `checkStates` whether MAIL was seen).
 
+How the action of a check comes out of its configuration is part of the claim: `parseAction`
+(`ParseActionDirective`) on every argument list - accepted exactly for the three documented words in
+their exact spelling, the flags a function of the word (`C06_directive_*`).
+
 The model (`Model/CheckRunner.lean`) mirrors the tree with the C06 `fix:` commits.
 `Cfg.WF` (no block lists the same check twice) is needed for the each-stage-once theorems only.
 -/
@@ -46,6 +50,111 @@ theorem C06_apply_wellformed (a : Act) (o : Res) (h : o.q = true ∨ o.r = true 
   split
   · exact h
   · rename_i hr; intro _; simpa using hr
+
+/-! ## the action directive (`ParseActionDirective`) -/
+
+theorem parseAction_cons_isSome (w : String) (rest : List String) :
+    (parseAction (w :: rest)).isSome = true ↔
+      (w = "ignore" ∨ ((w = "reject" ∨ w = "quarantine") ∧ (rest = [] ∨ (parseReject rest).isSome = true))) := by
+  by_cases h1 : w = "reject" ∨ w = "quarantine"
+  · have hi : w ≠ "ignore" := by rcases h1 with rfl | rfl <;> decide
+    by_cases hr : rest = []
+    · simp [parseAction, h1, hr]
+    · simp [parseAction, h1, hr, hi]
+  · by_cases h2 : w = "ignore"
+    · simp [parseAction, h2]
+    · simp [parseAction, h1, h2]
+
+/-- A directive is accepted at configuration load exactly when its first argument IS one of the
+three documented words (byte for byte) and, after `reject` / `quarantine`, the optional custom
+reply is well-formed; what follows `ignore` is not looked at; no argument at all is refused. -/
+theorem C06_directive_accepted_iff (args : List String) :
+    (parseAction args).isSome = true ↔
+      ∃ w rest, args = w :: rest ∧
+        (w = "ignore" ∨ ((w = "reject" ∨ w = "quarantine") ∧ (rest = [] ∨ (parseReject rest).isSome = true))) := by
+  constructor
+  · intro h
+    cases args with
+    | nil => simp [parseAction] at h
+    | cons w rest => exact ⟨w, rest, rfl, (parseAction_cons_isSome w rest).mp h⟩
+  · rintro ⟨w, rest, rfl, h⟩
+    exact (parseAction_cons_isSome w rest).mpr h
+
+/-- Any other spelling of the word - `Reject`, `REJECT`, `reject ` … - is refused at load, whatever follows. -/
+theorem C06_directive_exact_spelling (w : String) (rest : List String)
+    (hr : w ≠ "reject") (hq : w ≠ "quarantine") (hi : w ≠ "ignore") :
+    parseAction (w :: rest) = none := by
+  simp [parseAction, hr, hq, hi]
+
+/-- The flags of an accepted directive are a function of its word. -/
+theorem C06_directive_flags {w : String} {rest : List String} {a : FailAction}
+    (h : parseAction (w :: rest) = some a) :
+    a.reject = (w == "reject") ∧ a.quarantine = (w == "quarantine") := by
+  simp only [parseAction] at h
+  split at h
+  · split at h
+    · cases h; simp
+    · simp only [Option.map_eq_some_iff] at h
+      obtain ⟨o, _, rfl⟩ := h
+      simp
+  · split at h
+    · rename_i hi
+      cases h; subst hi; decide
+    · cases h
+
+/-- An accepted directive means what its word documents: the action the runner applies is the
+documented one, and `FailAction.Apply` with the parsed value is `Act.apply` of that action. -/
+theorem C06_directive_means_its_word {w : String} {rest : List String} {a : FailAction}
+    (h : parseAction (w :: rest) = some a) :
+    documented w = some a.act ∧ ∀ o, a.apply o = a.act.apply o := by
+  obtain ⟨hr, hq⟩ := C06_directive_flags h
+  have hacc := (C06_directive_accepted_iff (w :: rest)).mp (by simp [h])
+  obtain ⟨w', rest', heq, hw⟩ := hacc
+  simp only [List.cons.injEq] at heq
+  obtain ⟨rfl, rfl⟩ := heq
+  have key : (w = "reject" ∧ a.reject = true ∧ a.quarantine = false) ∨
+      (w = "quarantine" ∧ a.reject = false ∧ a.quarantine = true) ∨
+      (w = "ignore" ∧ a.reject = false ∧ a.quarantine = false) := by
+    rcases hw with rfl | ⟨rfl | rfl, _⟩
+    · right; right; exact ⟨rfl, by rw [hr]; decide, by rw [hq]; decide⟩
+    · left; exact ⟨rfl, by rw [hr]; decide, by rw [hq]; decide⟩
+    · right; left; exact ⟨rfl, by rw [hr]; decide, by rw [hq]; decide⟩
+  rcases key with ⟨rfl, h1, h2⟩ | ⟨rfl, h1, h2⟩ | ⟨rfl, h1, h2⟩
+  all_goals
+    refine ⟨by simp [documented, FailAction.act, h1, h2], fun o => ?_⟩
+    have e1 : (Act.reject == Act.quarantine) = false := by decide
+    have e2 : (Act.quarantine == Act.reject) = false := by decide
+    have e3 : (Act.ignore == Act.quarantine) = false := by decide
+    have e4 : (Act.ignore == Act.reject) = false := by decide
+    simp [FailAction.apply, FailAction.act, Act.apply, h1, h2, e1, e2, e3, e4]
+
+/-- Accepted ⇒ enforced as documented: a failing check (a result with a reason) whose action came
+from an accepted directive makes the runner reject / quarantine / do nothing exactly as the word
+says (with `C06_action_table`; the stages and the pipeline are the theorems below, which hold for
+every verdict function). -/
+theorem C06_directive_enforced {w : String} {rest : List String} {a : FailAction}
+    (h : parseAction (w :: rest) = some a) :
+    (w = "reject" → (a.apply ⟨true, false, false⟩).eff = .rej) ∧
+    (w = "quarantine" → (a.apply ⟨true, false, false⟩).eff = .quar) ∧
+    (w = "ignore" → (a.apply ⟨true, false, false⟩).eff = .none) := by
+  obtain ⟨hd, ha⟩ := C06_directive_means_its_word h
+  rw [ha]
+  refine ⟨?_, ?_, ?_⟩ <;> intro hw <;> subst hw <;>
+    simp [documented] at hd <;> rw [← hd] <;> simp [Act.apply, Res.eff]
+
+/-- non-vacuity: documented spellings load (with and without a custom reply), every other spelling,
+surplus or malformed arguments, no argument are refused; what follows `ignore` is not looked at -/
+example : parseAction ["reject"] = some ⟨false, true, none⟩ := by decide
+example : parseAction ["quarantine", "451", "4.7.0", "come back"] =
+    some ⟨true, false, some ⟨451, (4, 7, 0), "come back"⟩⟩ := by decide
+example : parseAction ["reject", "550"] = some ⟨false, true, some ⟨550, (5, 7, 0), defaultMsg⟩⟩ := by decide
+example : parseAction ["ignore", "550", "x"] = some ⟨false, false, none⟩ := by decide
+example : parseAction ["Reject"] = none ∧ parseAction ["REJECT", "550"] = none ∧
+    parseAction ["Quarantine", "550", "5.7.1", "x"] = none ∧ parseAction ["reject "] = none ∧
+    parseAction [] = none ∧ parseAction ["drop"] = none := by decide
+example : parseAction ["reject", "250"] = none ∧ parseAction ["reject", "550", "2.0.0"] = none ∧
+    parseAction ["reject", "550", "5.7"] = none ∧ parseAction ["reject", "550", "5.7.1", ""] = none ∧
+    parseAction ["reject", "550", "5.7.1", "x", "y"] = none ∧ parseAction ["reject", "-550"] = none := by decide
 
 /-! ## every completion order gives the same outcome -/
 
